@@ -214,6 +214,19 @@ Proof.
     destruct (history (getr ops (fst (run_prog ops prog)) out)); [discriminate|reflexivity].
 Qed.
 
+(* ---- a plain-number operand behaves exactly like the constant trace that carries it ---- *)
+Theorem number_operand_is_constant_trace o (a : trace R) c :
+  t_bin_num ops o a c = t_bin ops o a (tconstant ops c) /\
+  t_num_pow ops c a = t_pow ops (tconstant ops c) a.
+Proof.
+  split.
+  - destruct o; cbn [t_bin_num t_bin];
+      unfold t_add_num, t_add, t_sub_num, t_sub, t_mul_num, t_mul, t_div_num, t_div, t_pow_num, t_pow;
+      cbn [tconstant tnumber tderivative]; f_equal; try ring.
+    f_equal. ring.
+  - unfold t_num_pow, t_pow. cbn [tconstant tnumber tderivative]. f_equal. ring.
+Qed.
+
 End C05.
 
 (* ------------------------------------------------------------------ over Coq's real numbers *)
